@@ -1,11 +1,159 @@
 (* C20 - Python predicates are interchangeable with compiled ones.
-   Only statements; every proof is `exact <lemma>` to a lemma of Sem/NativeThms.v. *)
+   Only statements; every proof is `exact <lemma>` to a lemma of Sem/NativeThms.v, Sem/NativeFacts.v, Engine/NativeMono.v.
+
+   world                    the engine: functions of the loaded script (w_ir), Python predicates registered under a key
+                            name_k (w_fix: arity inferred or explicit) or name_n (w_var: variadic), dynamic facts (w_dyn)
+   nfun                     a registered predicate as its answer function: arguments, state |-> answers (state, yielded
+                            value) in order + "then raises"
+   nquery n w name args s   YP.query: dynamic facts first, then the function found under name_<len args>, else name_n;
+                            n = nesting depth of calls.  Answers are states; the yielded values are dropped (`drop`) where
+                            a query is consumed, as the emitted code and the builtins do
+   native_rows rows vals    for row in rows: for _ in unify_arrays(args, row): yield vals[row]    (rows over fresh variables)
+   raising f j              f, raising instead of delivering its answer number j *)
 From Coq Require Import String.
 From Coq Require Import List Arith ZArith.
 Import ListNotations.
-From YP Require Import Base.Str Term.Term Unify.Unify Lang.Ast Comp.IR Sem.Machine Sem.Native Sem.NativeThms.
+From YP Require Import Base.Str Term.Term Unify.Unify Lang.Ast Comp.IR Comp.CompileBody Comp.CompileClause Sem.Res Sem.RefSem Sem.IRSem Sem.ExecMono
+  Sem.Machine Sem.RunSem Sem.ClauseSem Sem.ProgramCorrect Sem.Native Sem.NativeThms Sem.NativeFacts Engine.RunBoundedM Engine.NativeMono.
 
+(* ---- sem_extensional: the answers of a body / of emitted code / of a whole engine depend on a predicate only through
+        its answer function (no functional extensionality axiom) *)
+
+Theorem C20_sem_extensional_body : forall (S : Type) (I I' : str -> list sterm -> S -> list S * bool),
+  (forall f a s, I f a s = I' f a s) -> forall b s, sem I b s = sem I' b s.
+Proof. exact sem_ext. Qed.
+Print Assumptions C20_sem_extensional_body.
+
+Theorem C20_sem_extensional_code : forall (S : Type) (assign : str -> expr -> S -> S) (J1 J2 : expr -> S -> list S * bool),
+  (forall it s, J1 it s = J2 it s) -> forall c s f, exec_list J1 assign c s f = exec_list J2 assign c s f.
+Proof. exact exec_list_ext. Qed.
+Print Assumptions C20_sem_extensional_code.
+
+(* by induction on the call depth: engines whose registered predicates agree pointwise (for a consumer that ignores the
+   yielded values) answer every query alike *)
+Theorem C20_sem_extensional_program : forall w1 w2, same_answers w1 w2 ->
+  forall n name args s, nquery n w1 name args s = nquery n w2 name args s.
+Proof. exact sem_extensional_program. Qed.
+Print Assumptions C20_sem_extensional_program.
+
+(* ---- yield_value_irrelevant: at the predicate ... *)
 Theorem C20_yield_value_irrelevant_leaf : forall rows vals args s,
   drop (native_rows rows vals args s) = match_rows rows args s.
 Proof. exact drop_native_rows. Qed.
 Print Assumptions C20_yield_value_irrelevant_leaf.
+
+(* ... and for every query of every engine: changing only the values that a registered predicate yields changes nothing *)
+Theorem C20_yield_value_irrelevant : forall ir fixl varl dynl name k rows vals1 vals2 n qname args s,
+  nquery n (mk_world ir ((name, k, native_rows rows vals1) :: fixl) varl dynl) qname args s =
+  nquery n (mk_world ir ((name, k, native_rows rows vals2) :: fixl) varl dynl) qname args s.
+Proof. exact yield_value_irrelevant_world. Qed.
+Print Assumptions C20_yield_value_irrelevant.
+
+(* ---- native_equals_compiled_facts: the generator function compiled from name(row_1). ... name(row_n). (ground rows)
+        and the Python predicate over the same rows deliver the same answers for all arguments and states, whatever the
+        calls mean and whatever the predicate yields *)
+Theorem C20_native_equals_compiled_facts : forall call name rows vals cnt code cnt' args s,
+  compile_clauses (map (fact_clause name) rows) cnt = Some (code, cnt') ->
+  Forall (fun row => ground_row row = true /\ length row = length args) rows ->
+  drop (native_rows (map row_of rows) vals args s) =
+  (let '(ys, k) := run_function (iter call) assign code (bind_args 0 args, s) in
+   (map snd ys, match k with CErr => true | _ => false end)).
+Proof. exact native_equals_compiled_facts. Qed.
+Print Assumptions C20_native_equals_compiled_facts.
+
+(* such facts always compile *)
+Theorem C20_facts_compile : forall name rows cnt, exists code, compile_clauses (map (fact_clause name) rows) cnt = Some (code, cnt).
+Proof. exact compile_facts. Qed.
+Print Assumptions C20_facts_compile.
+
+(* ---- "replacing any subset of a program's fact predicates by such functions changes no answer of any query, in any
+        context": engines related by any number of swaps (Python predicate under a fixed key <-> compiled facts) answer
+        every query alike, at every call depth, next to any dynamic facts and other predicates *)
+Theorem C20_subset_interchangeable : forall w w', swaps w w' ->
+  forall n name args s, nquery n w name args s = nquery n w' name args s.
+Proof. exact subset_interchangeable. Qed.
+Print Assumptions C20_subset_interchangeable.
+
+(* ---- args_in_call_order *)
+Theorem C20_args_in_call_order : forall call w g sargs r s f,
+  w_fix w g (length sargs) = Some f -> Resolve.reserved g = false -> w_dyn w g (length sargs) = [] ->
+  iter (nstep call w) (query_expr g sargs) (r, s) =
+  (map (fun x => (r, x)) (map fst (fst (f (map (instA r) sargs) s))), snd (f (map (instA r) sargs) s)).
+Proof. exact args_in_call_order. Qed.
+Print Assumptions C20_args_in_call_order.
+
+Theorem C20_args_in_call_order_variadic : forall call w g sargs r s f,
+  w_var w g = Some f -> w_fix w g (length sargs) = None -> find_func (w_ir w) g (length sargs) = None ->
+  (forall c a s0, builtin c g a s0 = None) -> str_eqb g (s_ "call") = false ->
+  Resolve.reserved g = false -> w_dyn w g (length sargs) = [] ->
+  iter (nstep call w) (query_expr g sargs) (r, s) =
+  (map (fun x => (r, x)) (map fst (fst (f (map (instA r) sargs) s))), snd (f (map (instA r) sargs) s)).
+Proof. exact args_in_call_order_variadic. Qed.
+Print Assumptions C20_args_in_call_order_variadic.
+
+(* ---- exception_passthrough: a predicate that raises instead of its j-th answer delivers the j answers before ... *)
+Theorem C20_exception_at_the_predicate : forall (f : nfun) j args s, j < length (fst (f args s)) ->
+  drop (raising f j args s) = (firstn j (fst (drop (f args s))), true).
+Proof. exact raising_leaf. Qed.
+Print Assumptions C20_exception_at_the_predicate.
+
+(* ... and EVERY query of EVERY engine, in every context and at every depth, either is not affected at all (the exception
+   point is never reached) or delivers a prefix of its answers and then ends with the exception: nothing catches,
+   replaces or delays it, no answer before it is lost *)
+Theorem C20_exception_passthrough : forall w pname k j n name args s,
+  let r' := nquery n (with_raising_fix w pname k j) name args s in
+  let r := nquery n w name args s in
+  (snd r' = false /\ r' = r) \/ (snd r' = true /\ prefixl (fst r') (fst r)).
+Proof. exact exception_passthrough_fix. Qed.
+Print Assumptions C20_exception_passthrough.
+
+Theorem C20_exception_passthrough_variadic : forall w pname j n name args s,
+  let r' := nquery n (with_raising_var w pname j) name args s in
+  let r := nquery n w name args s in
+  (snd r' = false /\ r' = r) \/ (snd r' = true /\ prefixl (fst r') (fst r)).
+Proof. exact exception_passthrough_var. Qed.
+Print Assumptions C20_exception_passthrough_variadic.
+
+(* ---- the engine without Python predicates and dynamic facts is the engine of Sem/Machine.v, whose compiled programs
+        compute the clause-level semantics (C01: machine_computes_clause_semantics) *)
+Theorem C20_plain_is_machine : forall ir, (forall f, In f ir -> Resolve.reserved (fn_name f) = false) ->
+  forall n name args s, nquery n (plain ir) name args s = query n ir name args s.
+Proof. exact plain_is_machine. Qed.
+Print Assumptions C20_plain_is_machine.
+
+(* ---- non-vacuity: rules t1(X,Y) :- q(X), e(X,Y).  t2(X) :- q(X), \+ e(X,c).  t3(X) :- once(q(X)).  t4(L) :- findall(X,q(X),L).
+        with q/1 = {a,b,c} and e/2 = {(a,b),(b,c)} as Python predicates (yielding mixed values) and as compiled facts *)
+Local Open Scope string_scope.
+Definition A (x : string) := SAtom (d x).
+Definition X := SVar (d "X"). Definition Y := SVar (d "Y"). Definition L := SVar (d "L").
+Definition ex_rules : program :=
+  [ {| c_name := d "t1"; c_args := [X; Y]; c_body := BAnd (BCall (d "q") [X]) (BCall (d "e") [X; Y]) |};
+    {| c_name := d "t2"; c_args := [X]; c_body := BAnd (BCall (d "q") [X]) (BNot (BCall (d "e") [X; A "c"])) |};
+    {| c_name := d "t3"; c_args := [X]; c_body := BCall (d "once") [SFun (d "q") [X]] |};
+    {| c_name := d "t4"; c_args := [L]; c_body := BCall (d "findall") [X; SFun (d "q") [X]; L] |} ].
+Definition q_rows := [[A "a"]; [A "b"]; [A "c"]].
+Definition e_rows := [[A "a"; A "b"]; [A "b"; A "c"]].
+Definition ex_full : program := (ex_rules ++ map (fact_clause (d "q")) q_rows ++ map (fact_clause (d "e")) e_rows)%list.
+Definition w_py (ir : ir_program) : world :=
+  mk_world ir [(d "q", 1, native_rows (map row_of q_rows) [false; true; false]);
+               (d "e", 2, native_rows (map row_of e_rows) [true; true])] [] [].
+
+Example C20_nonvacuous :
+  match compile_program ex_rules, compile_program ex_full with
+  | Some ir, Some irf =>
+      let ta := TAtom (d "a") in let tb := TAtom (d "b") in let tc := TAtom (d "c") in
+      let ans := fun nq (r : list st * bool) => (map (answer_of nq) (fst r), snd r) in
+      ans 2 (nquery 6 (w_py ir) (d "t1") [TVar 0; TVar 1] (st0 2)) = ([[ta; tb]; [tb; tc]], false) /\
+      nquery 6 (w_py ir) (d "t1") [TVar 0; TVar 1] (st0 2) = nquery 6 (plain irf) (d "t1") [TVar 0; TVar 1] (st0 2) /\
+      nquery 6 (w_py ir) (d "t2") [TVar 0] (st0 1) = nquery 6 (plain irf) (d "t2") [TVar 0] (st0 1) /\
+      ans 1 (nquery 6 (w_py ir) (d "t2") [TVar 0] (st0 1)) = ([[ta]; [tc]], false) /\
+      nquery 6 (w_py ir) (d "t4") [TVar 0] (st0 1) = nquery 6 (plain irf) (d "t4") [TVar 0] (st0 1) /\
+      (* q raises instead of its answer number 1: t1 delivers its first answer, then the exception *)
+      ans 2 (nquery 6 (with_raising_fix (w_py ir) (d "q") 1 1) (d "t1") [TVar 0; TVar 1] (st0 2)) = ([[ta; tb]], true) /\
+      (* under once/1 the exception point is never reached *)
+      ans 1 (nquery 6 (with_raising_fix (w_py ir) (d "q") 1 1) (d "t3") [TVar 0] (st0 1)) = ([[ta]], false) /\
+      (* findall/3 delivers nothing and ends with the exception *)
+      ans 1 (nquery 6 (with_raising_fix (w_py ir) (d "q") 1 1) (d "t4") [TVar 0] (st0 1)) = ([], true)
+  | _, _ => False
+  end.
+Proof. vm_compute. repeat split. Qed.
